@@ -26,7 +26,12 @@ pub const SCALAR_KEYS: [&str; 11] = [
 pub const LIST_KEYS: [&str; 3] = ["ALL_DEPENDS", "SCAN_DEPENDS", "MULTI_VERSION"];
 
 /// (text, pattern text, short pkgpath)
-pub const GOOD_DEPENDS: [(&str, &str, &str); 10] = [
+pub const GOOD_DEPENDS: [(&str, &str, &str); 14] = [
+    // the same pattern pointing at different locations (multi-version packages)
+    ("mysql-client>=5.7:../../databases/mysql57-client", "mysql-client>=5.7", "databases/mysql57-client"),
+    ("mysql-client>=5.7:../../databases/mysql80-client", "mysql-client>=5.7", "databases/mysql80-client"),
+    ("perl>=5.0:../../lang/perl536", "perl>=5.0", "lang/perl536"),
+    ("foo-1.0:cat/foo2", "foo-1.0", "cat/foo2"),
     ("mktool-[0-9]*:../../pkgtools/mktool", "mktool-[0-9]*", "pkgtools/mktool"),
     ("perl>=5.0:../../lang/perl5", "perl>=5.0", "lang/perl5"),
     ("librsvg>=2.12<2.41:../../graphics/librsvg", "librsvg>=2.12<2.41", "graphics/librsvg"),
@@ -39,7 +44,10 @@ pub const GOOD_DEPENDS: [(&str, &str, &str); 10] = [
     ("PKGNAME=x-[0-9]*:../../a/b", "PKGNAME=x-[0-9]*", "a/b"),
 ];
 
-pub const BAD_DEPENDS: [&str; 17] = [
+pub const BAD_DEPENDS: [&str; 20] = [
+    "foo-[0-9]*:../../cat/foo:bar>=1.2:../../cat/bar",
+    "a:b:../../cat/pkg",
+    "foo-1.0:x:../../cat/foo",
     "bar-[0-9]*:../../devel/bar:",
     "bar-[0-9]*:",
     ":",
@@ -385,6 +393,7 @@ fn gen_pkgname(rng: &mut Rng) -> String {
         1 => "foo".into(),
         2 => "php56-mysql-5.6.40nb1".into(),
         3 => "-1.0".into(),
+        5 => rng.pick_str(&["dists-20240101.tgz", "foo-1.0.tgz", "foo-1.0.tar.gz", "x.tgz-1", "tgz-1.0"]).into(),
         4 => "PKGNAME=x-1.0".into(),
         _ => format!("{}-{}.{}", gen_token(rng), rng.below(30), rng.below(100)),
     }
